@@ -170,6 +170,7 @@ class Ctx:
         import numpy as np
 
         self.prop, self.tier, self.seed = prop, tier, seed
+        self.seed_base = seed  # the seed the run was asked for (self.seed moves on in an escalated second pass)
         self.quick = tier == "quick"
         self.rng = np.random.default_rng(np.random.PCG64(seed))
         self.t0 = time.time()
@@ -184,6 +185,32 @@ class Ctx:
         self.axioms_seen: set[str] = set()
         self.known = load_known()
         self.groups = []
+
+    # ---------- anchored-source fingerprints (DESIGN 1.4b) ----------
+    def changed_anchor_files(self):
+        """Source files of the repository under test whose AST fingerprint differs from harness/fingerprints.json (taken on
+        the unchanged tree) and that matter to this property: its anchor files (properties.jsonl), or files no property
+        anchors.  Never an alarm by itself: it only makes the quick tier run a second pass with a fresh seed."""
+        import fnmatch
+        import importlib.util
+
+        try:
+            spec = importlib.util.spec_from_file_location("fingerprint", os.path.join(VERIF, "tools", "fingerprint.py"))
+            fp = importlib.util.module_from_spec(spec)
+            spec.loader.exec_module(fp)
+            diff = fp.changed(REPO)
+            anchors, mine = set(), []
+            for line in open(os.path.join(VERIF, "properties.jsonl")):
+                if line.strip():
+                    d = json.loads(line)
+                    anchors.update(d["anchors"]["files"])
+                    if d["id"] == self.prop:
+                        mine = d["anchors"]["files"]
+            hit = [f for f in diff if any(fnmatch.fnmatch(f, a) for a in mine) or not any(fnmatch.fnmatch(f, a) for a in anchors)]
+            return hit
+        except Exception as e:  # pragma: no cover
+            self.notes.append(f"fingerprint comparison failed: {type(e).__name__}: {e}")
+            return []
 
     # ---------- proof side ----------
     def build(self, groups=(), extra_props=()):
@@ -323,7 +350,7 @@ class Ctx:
         if extra_cov:
             cov.update(extra_cov)
         ev = {
-            "property_id": self.prop, "tier": self.tier, "seed": int(self.seed), "level": level, "coverage": cov,
+            "property_id": self.prop, "tier": self.tier, "seed": int(self.seed_base), "level": level, "coverage": cov,
             "assumptions": self.assumptions, "wall_s": round(time.time() - self.t0, 2), "violations": len(self.violations),
         }
         evdir = os.environ.get("VERIF_EVIDENCE_DIR") or os.path.join(VERIF, "evidence")  # the override is for mutation trials only
